@@ -595,9 +595,9 @@ def main(tier, seed):
     if built:
         chk.prove()
     quick = tier == "quick"
-    n_new = 1500 if quick else 40000
-    n_build = 1200 if quick else 30000
-    n_oracle = 500 if quick else 8000
+    n_new = 1500 if quick else 15000
+    n_build = 1200 if quick else 12000
+    n_oracle = 500 if quick else 5000
     n_extra = 6 if quick else 60
 
     # ---------------- corpus
